@@ -380,6 +380,11 @@ def main():
         if e.get('undecided'):
             undecided.append({'unit': e['name'], 'reason': e['undecided'], 'status': 'undecided'})
     rc = 0
+    for r in results:
+        for it in r.get('items', []):
+            for a, b in it['rules']:
+                if a.startswith('hint-anchor-lost'):
+                    print('note: unit %s item %s: %s (run continues without that hint)' % (r['unit'], it['id'], a))
     for f, k in knownhits:
         print('KNOWN-FINDING: property=%s %s [%s]' % (prop, k['what'], f['id']))
     os.makedirs(os.path.join(OUT, 'replay'), exist_ok=True)
